@@ -30,3 +30,9 @@ Proof.
   intros H Hn. apply NoDup_app_intro; [exact H|constructor; [intros []|constructor]|].
   intros x Hx [<-|[]]. contradiction.
 Qed.
+
+Lemma firstn_add_skipn {A} (l : list A) a b : firstn (a + b) l = firstn a l ++ firstn b (skipn a l).
+Proof.
+  revert l; induction a as [|a IH]; intros l; simpl; [reflexivity|].
+  destruct l as [|x l]; [destruct b; reflexivity|]. simpl. f_equal. apply IH.
+Qed.
